@@ -6,4 +6,5 @@ CONSTANTS
   Prots <- AllProts
   FixDelete = TRUE
   FixPatch = TRUE
+  CacheTrunc = TRUE
 CHECK_DEADLOCK FALSE
